@@ -1,5 +1,6 @@
 import AsyncVerif.Proofs.Core
 import AsyncVerif.Impl.Aggregations
+import AsyncVerif.Proofs.SelectValue
 /-!
 # C20 — bounded retention  (partial by nature)
 
@@ -132,7 +133,31 @@ theorem C20_merge_heap_never_grows (reverse : Bool) : ∀ (heap : List Std.Entry
         obtain ⟨_, rfl⟩ := h
         simp only [List.length_cons]; omega
 
+/-- `nlargest` / `nsmallest`: the heap holds at most `n` entries after the first phase — in **every world** (any source
+    script, any fault, any key behaviour), for every direction and stamp convention -/
+theorem C20_nbest_heap_at_most_n (c : Sel.Cfg) (n : Nat) (fn : Option Nat) (s : Nat) (w w' : World)
+    (first : List (Val × Val)) (h0 : List Sel.VE)
+    (hfirst : Std.nbFirst fn s n [] w = (.ok first, w')) (hheap : Sel.heapifyV c first = .ok h0) :
+    h0.length ≤ n := by
+  have h1 := nbFirst_length fn s n [] w first w' hfirst
+  have h2 := Sel.heapifyV_length c first 0 [] h0 hheap
+  simp at h1 h2
+  omega
+
+/-- … and **no round of the scan changes its size**, however long the stream: every state the scan loop passes through
+    (each is the start state of the remaining scan) holds exactly as many entries as the heap it started from; an
+    accepted item replaces the worst entry, a rejected one is dropped at once. -/
+theorem C20_nbest_window_constant (c : Sel.Cfg) (fn : Option Nat) (s fuel : Nat) (st st' : List Sel.VE × Int) (w w' : World)
+    (h : Std.nbScan c fn s st fuel w = (.ok st', w')) : st'.1.length = st.1.length :=
+  nbScan_heap_size c fn s fuel st st' w w' h
+
+/-- one round: the heap keeps its size whether or not the item is accepted -/
+theorem C20_nbest_round (c : Sel.Cfg) (st st' : List Sel.VE × Int) (k x : Val) (h : Sel.acceptV c st k x = .ok st') :
+    st'.1.length = st.1.length := Sel.acceptV_length c st st' k x h
+
 /-! Non-vacuity -/
+example : (Sel.acceptV ⟨true, false⟩ ([⟨.int 5, 0, .obj 1 5⟩, ⟨.int 3, -1, .obj 2 3⟩], -2) (.int 4) (.obj 3 4)).map
+    (fun st => st.1.map (·.item)) = .ok [.obj 1 5, .obj 3 4] := by rfl
 example : (Std.popMin false [⟨.int 3, .int 3, 0, 0⟩, ⟨.int 1, .int 1, 1, 1⟩]).map (fun p => (p.1.idx, p.2.length)) = some (1, 1) := by
   decide
 
